@@ -172,6 +172,10 @@ pub fn main(a: &Args) {
             if i % 3 == 0 { inputs_v.push((t.clone(), "markdown".into(), 0)); }
             if i % 7 == 0 { let fr = rng.pick(&fronts[..]).clone(); inputs_v.push((inputs::wrap_front(&fr, &t, &mut rng), fr, 0)); }
         }
+        for t in inputs::glued_pairs() {
+            inputs_v.push((t.clone(), "plain".into(), 0));
+            if t.len() % 3 == 0 { inputs_v.push((t, "markdown".into(), 0)); }
+        }
         for adv in inputs::adversarial() {
             for fr in ["plain", "markdown", "typst", "html", "lhaskell", "git-commit", "rust", "javascript", "java", "go"] {
                 inputs_v.push((adv.clone(), fr.to_string(), 0));
